@@ -582,4 +582,79 @@ theorem transit_rate_expr (F : Funs) (ρ : Env Rat) (r : Rate) : ev F ρ (rateEx
 example : setTransits (setTransits [] 2 "MDT" false) 4 "MDT" false = List.replicate 4 ⟨4, "MDT"⟩ := by decide
 example : WFChain "MDT" [⟨2, "MDT"⟩, ⟨2, "MDT"⟩] := by intro r hr; simp at hr; rw [hr]; rfl
 
+
+/-! ## Combined error model on top of the residual-error modifiers (time-varying, IIV on RUV) -/
+
+/-- the loop `for eps in epsilons: expr = expr.subs({eps: ruv_prop})` evaluates as the expression with **every**
+    epsilon of the list carrying the value of the new proportional epsilon — all expressions, all epsilon lists. -/
+theorem subst_eps_eval (F : Funs) (p : Sym) : ∀ (es : List Sym) (e : Expr) (ρ : Env Rat), p ∉ es →
+    ev F ρ (substEps p e es) = ev F (epsTo ρ es p) e := by
+  intro es
+  induction es with
+  | nil =>
+    intro e ρ _
+    have h : epsTo ρ [] p = ρ := by funext s; simp [epsTo]
+    simp [substEps, h]
+  | cons x t ih =>
+    intro e ρ hp
+    have hp' : p ∉ t := fun h => hp (List.mem_cons_of_mem _ h)
+    simp only [substEps]
+    rw [ih _ ρ hp']
+    simp only [ev]
+    rw [eval_subst1]
+    congr 1
+    funext s
+    by_cases hs : s = x
+    · subst hs; simp [Env.set, epsTo, Expr.eval, hp']
+    · simp [Env.set, epsTo, hs]
+
+/-- value of the `Y` written by `set_combined_error_model` on a time-varying model: in each branch the old branch
+    value with every old epsilon set to the proportional one, plus the additive epsilon times the factors of the
+    modifiers in force (`theta` only before the cutoff, `exp(eta)` in BOTH branches when the model has IIV on RUV). -/
+theorem combined_on_time_varying_eval (F : Funs) (ρ : Env Rat) (e0 e1 cond : Expr) (es : List Sym) (p a η θ : Sym)
+    (hasEta : Bool) (hp : p ∉ es) :
+    ev F ρ (combinedOnTimeVarying e0 e1 cond es p a hasEta η θ) =
+      if ev F ρ cond = 0 then ev F (epsTo ρ es p) e1 + ρ a * (if hasEta then F.exp (ρ η) else 1)
+      else ev F (epsTo ρ es p) e0 + ρ a * ρ θ * (if hasEta then F.exp (ρ η) else 1) := by
+  have h0 := subst_eps_eval F p es e0 ρ hp
+  have h1 := subst_eps_eval F p es e1 ρ hp
+  simp only [ev] at h0 h1 ⊢
+  cases hasEta <;>
+    simp [combinedOnTimeVarying, combAddTerm, eAdd, eMul, Expr.eval, interp, interpFn] <;>
+    split <;> simp_all [interp]
+
+/-- The clause "the observation depends on the prediction and on each epsilon as the named error model does", for
+    `set_combined_error_model` applied after `set_time_varying_error_model` and (optionally) `set_iiv_on_ruv` on a
+    proportional model with epsilon `ε`: when the two branch values of the old `Y` are the documented
+    `f + f·ε·θ·[exp η]` and `f + f·ε·[exp η]` (in every environment) and the prediction does not depend on `ε`, the
+    new `Y` is the combined model `f + (f·ε_p + ε_a)·s` with the SAME factor `s` on both epsilons:
+    `θ·[exp η]` before the cutoff, `[exp η]` after it. -/
+theorem combined_after_modifiers_shape (F : Funs) (ρ : Env Rat) (f e0 e1 cond : Expr) (ε p a η θ : Sym)
+    (hasEta : Bool) (hp : p ≠ ε) (hθ : θ ≠ ε) (hη : η ≠ ε)
+    (h0 : ∀ ρ', ev F ρ' e0 = ev F ρ' f + ev F ρ' f * ρ' ε * (ρ' θ * (if hasEta then F.exp (ρ' η) else 1)))
+    (h1 : ∀ ρ', ev F ρ' e1 = ev F ρ' f + ev F ρ' f * ρ' ε * (if hasEta then F.exp (ρ' η) else 1))
+    (hf : ev F (epsTo ρ [ε] p) f = ev F ρ f) :
+    ev F ρ (combinedOnTimeVarying e0 e1 cond [ε] p a hasEta η θ) =
+      Doc.errCombinedScaled (ev F ρ f) (ρ p) (ρ a)
+        ((if ev F ρ cond = 0 then 1 else ρ θ) * (if hasEta then F.exp (ρ η) else 1)) := by
+  rw [combined_on_time_varying_eval F ρ e0 e1 cond [ε] p a η θ hasEta (by simp [hp])]
+  rw [h0, h1, hf]
+  have e1' : epsTo ρ [ε] p ε = ρ p := by simp [epsTo]
+  have e2' : epsTo ρ [ε] p θ = ρ θ := by simp [epsTo, hθ]
+  have e3' : epsTo ρ [ε] p η = ρ η := by simp [epsTo, hη]
+  rw [e1', e2', e3']
+  unfold Doc.errCombinedScaled
+  split <;> grind
+
+/-- at eta = 0 after the cutoff the result is the plain combined error model -/
+theorem combined_after_modifiers_reference (F : Funs) (hexp : F.exp 0 = 1) (f ε₁ ε₂ : Rat) (hasEta : Bool) :
+    Doc.errCombinedScaled f ε₁ ε₂ (1 * (if hasEta then F.exp 0 else 1)) = Doc.errCombined f ε₁ ε₂ := by
+  cases hasEta <;> simp [Doc.errCombinedScaled, Doc.errCombined, hexp] <;> grind
+
+-- non-vacuity: the hypotheses of `combined_after_modifiers_shape` hold for the expressions the setters write
+example (F : Funs) (ρ' : Env Rat) :
+    ev F ρ' (.f2 "add" (.sym "F") (.f2 "mul" (.f2 "mul" (.sym "F") (.sym "EPS_1")) (.f2 "mul" (.sym "time_varying") (.f1 "exp" (.sym "ETA_RV1")))))
+      = ev F ρ' (.sym "F") + ev F ρ' (.sym "F") * ρ' "EPS_1" * (ρ' "time_varying" * (if true then F.exp (ρ' "ETA_RV1") else 1)) := by
+  simp [ev, Expr.eval, interp, interpFn]
+
 end Pharmpy.C09
